@@ -195,7 +195,7 @@ var preparedID = []byte{0xc1, 0x5c, 0x15, 0x00, 0x01, 0x02, 0x03, 0x04}
 
 // runSess runs the scenario; spurious reports an environment problem (a driver timeout although the
 // node had answered every request it received), in which case the caller re-runs the scenario.
-func runSess(sc scen) (answer string, spurious bool) {
+func runSess(sc scen, driverTimeout time.Duration) (answer string, spurious bool) {
 	defer func() {
 		if r := recover(); r != nil {
 			answer = fmt.Sprintf("crash:%v", r)
@@ -299,14 +299,16 @@ func runSess(sc scen) (answer string, spurious bool) {
 	cfg.Timeout = 20 * time.Second
 	for _, r := range sc.script {
 		if r.fail == "t" {
-			cfg.Timeout = 60 * time.Millisecond
+			cfg.Timeout = driverTimeout
 		}
 	}
 	cfg.ConnectTimeout = 20 * time.Second
+	cfg.WriteTimeout = 20 * time.Second
 	cfg.DisableSkipMetadata = sc.kind == "xd"
 	s, err := cfg.CreateSession()
 	if err != nil {
-		return "fatal:" + err.Error(), false
+		// the session could not even be set up (an overloaded machine and a short driver timeout): environment
+		return "fatal:" + err.Error(), true
 	}
 	defer s.Close()
 	if sc.pageSize == 3 {
@@ -435,6 +437,10 @@ func runSess(sc scen) (answer string, spurious bool) {
 	if ec == "timeout" && !un {
 		return "spurious-timeout", true
 	}
+	if strings.HasPrefix(ec, "other:") && strings.Contains(ec, "i/o_timeout") {
+		// a read/write deadline of the short driver timeout expired on the in-memory pipe: environment
+		return "spurious-" + ec, true
+	}
 	rows := showRows(res.rows)
 	if res.nilr {
 		rows = "nil"
@@ -446,9 +452,12 @@ var spuriousReruns int64
 
 func execSess(op string) string {
 	sc := parseScen(op)
+	// the driver timeout of `Et` scenarios is the only real timer; an environment fault (see runSess) re-runs
+	// the scenario with a longer one
+	timeouts := []time.Duration{80 * time.Millisecond, 250 * time.Millisecond, time.Second, 3 * time.Second, 8 * time.Second}
 	for try := 0; ; try++ {
-		a, spurious := runSess(sc)
-		if !spurious || try >= 3 {
+		a, spurious := runSess(sc, timeouts[try])
+		if !spurious || try == len(timeouts)-1 {
 			return a
 		}
 		atomic.AddInt64(&spuriousReruns, 1)
